@@ -6,23 +6,35 @@ FG == INSTANCE FlatGeom
 Recs == ndJsonDeserialize(IOEnv.TRACEFILE)
 \* memory: proportional to the input plus what the limits allow each count field to claim (a count field costs 4
 \* input bytes and may reserve limit x 32 bytes before the shortage is noticed), plus a constant for the call.
+\* The constants are deliberately generous (a refactoring that puts a 4 KiB buffered reader around every nested read
+\* stays inside): what the bound must catch is an allocation proportional to a FORGED count (>= 2^16 elements).
 MaxLim(lim) == Max2(Max2(lim[1], lim[2]), Max2(lim[3], 0))
 AllocBound(n, lim, mx) ==
-  16384 + 256 * n + (IF lim = <<-1, -1, -1>> THEN 64 * mx * (n + 1) ELSE 16 * (n + 4) * (MaxLim(lim) + 1))
+  32768 + 4096 * n + (IF lim = <<-1, -1, -1>> THEN 64 * mx * (n + 1) ELSE 16 * (n + 4) * (MaxLim(lim) + 1))
+\* The input is the standard encoding of the geometry the reference decoder reads from it (whole input consumed,
+\* re-encoding gives the same bytes).  Only for such inputs does the property fix WHAT must be returned (C03);
+\* for all other byte strings it demands totality, a well-formed and stable result, and the limit / memory rules -
+\* whether a malformed input is accepted or rejected, and with which error, is left to the implementation.
+Standard(c, d) ==
+  /\ d.ok /\ d.pos = Len(c.bytes) /\ Len(c.bytes) > 0 /\ c.bytes[1] \in {0, 1}
+  /\ EncC(d.g, IF c.bytes[1] = 0 THEN "XDR" ELSE "NDR",
+          IF c.flavor = "ewkb" THEN "ewkb" ELSE IF c.nan THEN "wkbnan" ELSE "wkb", TRUE) = c.bytes
 Clause(r) ==
   LET c == r.case  d == Decode(c.bytes, c.flavor, c.nan, c.lim) IN
   CASE r.ev = "notrun" -> "ok"          \* the driver stopped this chunk after repeated crashes (each one reported)
     [] r.ev # "ok" -> r.ev
     [] r.errclass = "panic" -> "panic"
-    [] d.ok /\ ~r.ok -> "rejects-valid:" \o r.errclass
-    [] ~d.ok /\ r.ok -> "accepts-invalid:" \o d.err
+    [] ~d.ok /\ d.err = "toolarge" /\ r.ok -> "accepts-invalid:toolarge"
     [] ~d.ok /\ d.err = "toolarge" /\ r.errclass # "toolarge" -> "limit-not-reported"
     [] r.alloc > AllocBound(Len(c.bytes), c.lim, d.mx) -> "allocation-unbounded"
-    [] r.ok /\ r.g # d.g -> "decoded-geometry-differs"
-    [] r.ok /\ c.via = "" /\ r.consumed # d.pos -> "bytes-consumed"
     [] r.ok /\ \E k \in DOMAIN r.wf : ~(r.wf[k].k \in FG!Kinds /\ FG!WellFormedObj(r.wf[k])) -> "ill-formed-result"
     [] r.ok /\ ~(r.re = "ok" /\ r.d2 = r.d1) -> "not-canonical"
+    [] Standard(c, d) /\ ~r.ok -> "rejects-valid:" \o r.errclass
+    [] Standard(c, d) /\ r.g # d.g -> "decoded-geometry-differs"
+    [] Standard(c, d) /\ c.via = "" /\ r.consumed # d.pos -> "bytes-consumed"
     [] OTHER -> "ok"
+\* informational (not a verdict): disagreement with the reference decoder on non-standard input
+Differs(r) == LET c == r.case  d == Decode(c.bytes, c.flavor, c.nan, c.lim) IN r.ev = "ok" /\ (d.ok # r.ok \/ (d.ok /\ r.ok /\ r.g # d.g))
 VARIABLES i, bad
 Init == i = 1 /\ bad = 0
 Next == /\ i <= Len(Recs)
